@@ -18,20 +18,25 @@ abbrev QF := Zeno.Base.Queue.Facts
 inductive Ev
   | written (u : Nat)       -- records of exchange u on disk (feedback signalled)
   | archived (u : Nat)      -- archive() set ItemArchived on the node of exchange u
+  | settled (u : Nat)       -- archive() left the attempt u that got a response but ends in "retry" or "retries exceeded"
   | notify (seed : Nat)     -- the finisher handed the seed to the source's finish channel
   | deleted (seed : Nat)    -- the queue row of the seed was deleted (finish acknowledged)
 deriving DecidableEq, Repr
 
-/-- `fetched s` = the exchanges of seed `s` whose node reached ItemArchived. Guards:
+/-- `fetched s` = the exchanges of seed `s` that got a response the discard policy accepts: the final,
+successful attempt of a node (ends with `archived`) and the attempts that end in a retry or in "retries
+exceeded" (end with `settled`). Guards:
 * `archived u` needs `written u` before it — when the source waits on the feedback channel before
   `SetStatus(ItemArchived)` and WARC writing is synchronous;
-* `notify s` needs every fetched node of `s` archived (the finisher notifies only a complete seed, after
-  `MarkAsFinished`);
+* `settled u` needs `written u` before it — when the retry / give-up exits wait on the feedback channel too;
+* `notify s` needs every exchange of `s` archived or settled (archive() returns only when all its goroutines
+  are done; the finisher notifies only a complete seed, after `MarkAsFinished`);
 * `deleted s` needs `notify s` (the queue's finisher deletes what arrives on the finish channel). -/
 def guard (A : AF) (Q : QF) (sync : Bool) (fetched : Nat → List Nat) (pre : List Ev) : Ev → Bool
   | .written _ => true
   | .archived u => if sync && A.feedbackChanUnlessAsync && A.feedbackAwaitedBeforeArchived then pre.contains (.written u) else true
-  | .notify s => if Q.finishNotifiesAfterMark then (fetched s).all (fun u => pre.contains (.archived u)) else true
+  | .settled u => if sync && A.feedbackChanUnlessAsync && A.failedAttemptsAwaitFeedback then pre.contains (.written u) else true
+  | .notify s => if Q.finishNotifiesAfterMark then (fetched s).all (fun u => pre.contains (.archived u) || pre.contains (.settled u)) else true
   | .deleted s => pre.contains (.notify s)
 
 /-- every event of the log satisfied its guard when it happened -/
